@@ -59,6 +59,70 @@ Inductive interleave {A} : list (list A) -> list A -> Prop :=
 Definition queue_of (lim : nat) (topic : N) (msgs : list bytes) : list packet := flat_map (packets_of lim topic) msgs.
 Definition on_topic (t : N) (ds : list (N * bytes)) : list bytes := map snd (filter (fun d => N.eqb (fst d) t) ds).
 
+(* ---- the topic's bounded send queue (Stream.queueSends under the stream mutex; the send service drains it) *)
+(* a message enters the queue whole or not at all: queueSends waits until all its packets fit (free space only grows while the
+   mutex is held) and gives up, with nothing queued, when they do not fit in time.  [fits] abstracts the timing: whether the
+   room was there before the time-out.  A message of more packets than the queue can ever hold is queued packet by packet, as
+   before the repair (it cannot occur: at most 257 packets per message, 1000 slots) *)
+Fixpoint fill (room : nat) (q ps : list packet) {struct ps} : list packet * bool :=
+  match ps with
+  | [] => (q, true)
+  | p :: r => match room with O => (q, false) | S room' => fill room' (q ++ [p]) r end
+  end.
+Definition qsend (lim cap : nat) (t : N) (q : list packet) (msg : bytes) : list packet * bool :=
+  let ps := packets_of lim t msg in
+  match ps with
+  | [_] => fill (cap - length q) q ps
+  | _ => if Nat.leb (length ps) cap
+         then (if Nat.leb (length q + length ps) cap then (q ++ ps, true) else (q, false))
+         else fill (cap - length q) q ps
+  end.
+(* before the repair: packet by packet, each waiting for its own slot - a time-out after the first packet left a prefix queued *)
+Definition qsend_old (lim cap : nat) (t : N) (q : list packet) (msg : bytes) : list packet * bool :=
+  fill (cap - length q) q (packets_of lim t msg).
+Inductive sop := OSend (msg : bytes) | ODrain (k : nat).
+Record sstate := mkSS { ss_queue : list packet; ss_wire : list packet; ss_accepted : list bytes }.
+Definition sstep (send : list packet -> bytes -> list packet * bool) (s : sstate) (o : sop) : sstate :=
+  match o with
+  | OSend m => let '(q', ok) := send (ss_queue s) m in mkSS q' (ss_wire s) (if ok then ss_accepted s ++ [m] else ss_accepted s)
+  | ODrain k => mkSS (skipn k (ss_queue s)) (ss_wire s ++ firstn k (ss_queue s)) (ss_accepted s)
+  end.
+Definition srun send (ops : list sop) : sstate := fold_left (sstep send) ops (mkSS [] [] []).
+(* correspondence: the observations of a run of the real stream: per send, whether it was accepted; per drain, the packets taken *)
+Inductive sobs := SAcc (ok : bool) | STaken (ps : list (bool * bytes)).
+Fixpoint sobserve (send : list packet -> bytes -> list packet * bool) (s : sstate) (ops : list sop) : list sobs :=
+  match ops with
+  | [] => []
+  | o :: r => let s' := sstep send s o in
+              (match o with
+               | OSend m => SAcc (snd (send (ss_queue s) m))
+               | ODrain k => STaken (map (fun p => (p_eof p, p_bytes p)) (firstn k (ss_queue s)))
+               end) :: sobserve send s' r
+  end.
+Definition sobs_eqb (a b : sobs) : bool :=
+  match a, b with
+  | SAcc x, SAcc y => Bool.eqb x y
+  | STaken x, STaken y => (fix eq (a b : list (bool * bytes)) : bool :=
+        match a, b with [], [] => true | (e1, b1) :: a', (e2, b2) :: b' => Bool.eqb e1 e2 && bytes_eqb b1 b2 && eq a' b' | _, _ => false end) x y
+  | _, _ => false
+  end.
+Record send_case := mkSnd { sn_lim : N; sn_cap : N; sn_topic : N; sn_ops : list sop; sn_obs : list sobs }.
+Definition send_agrees (c : send_case) : bool :=
+  let model := sobserve (qsend (N.to_nat (sn_lim c)) (N.to_nat (sn_cap c)) (sn_topic c)) (mkSS [] [] []) (sn_ops c) in
+  (fix eq (a b : list sobs) : bool := match a, b with [], [] => true | x :: a', y :: b' => sobs_eqb x y && eq a' b' | _, _ => false end) model (sn_obs c).
+(* the property on the observations alone: what was taken from the queue, fed to the receiver, is exactly the accepted messages *)
+Definition send_ok (c : send_case) : bool :=
+  let taken := flat_map (fun o => match o with STaken ps => map (fun eb => mkPk (sn_topic c) (fst eb) (snd eb)) ps | _ => [] end) (sn_obs c) in
+  let accepted := (fix acc (ops : list sop) (obs : list sobs) : list bytes :=
+      match ops, obs with
+      | OSend m :: r, SAcc true :: r' => m :: acc r r'
+      | _ :: r, _ :: r' => acc r r'
+      | _, _ => []
+      end) (sn_ops c) (sn_obs c) in
+  let '(ds, alive) := receive (N.to_nat 1048576) [] taken in
+  alive && (fix pre (a b : list bytes) : bool :=      (* delivered = a prefix of the accepted messages (the rest is still queued) *)
+      match a, b with [], _ => true | x :: a', y :: b' => bytes_eqb x y && pre a' b' | _, _ => false end) (map snd ds) accepted.
+
 (* ---- correspondence cases: split and the assembler as pure functions; concurrent sends as an ordering check *)
 Record split_case := mkSC { sc_lim : N; sc_len : N; sc_sizes : list N }.    (* a buffer of sc_len bytes: the chunk sizes observed *)
 Definition split_agrees (c : split_case) : bool :=
@@ -114,3 +178,5 @@ Definition split_mismatches (cs : list split_case) : list N := idxm (fun c => ne
 Definition asm_mismatches (cs : list asm_case) : list N := idxm (fun c => negb (asm_agrees c)) 0%N cs.
 Definition conc_violations (cs : list conc_case) : list N := idxm (fun c => negb (conc_ok c)) 0%N cs.
 Definition conc_mismatches (cs : list conc_case) : list N := [].
+Definition send_mismatches (cs : list send_case) : list N := idxm (fun c => negb (send_agrees c)) 0%N cs.
+Definition send_violations (cs : list send_case) : list N := idxm (fun c => negb (send_ok c)) 0%N cs.
